@@ -194,8 +194,10 @@ def decide_equal(a: sp.Expr, b: sp.Expr, trig: bool = False) -> Tuple[Optional[b
     syms = sorted(d.free_symbols, key=lambda x: x.name)
     funcs = sorted(d.atoms(sp.Function) - d.atoms(sp.sin, sp.cos, sp.exp, sp.log, sp.Abs, sp.conjugate, sp.re, sp.im, sp.Min, sp.Max),
                    key=str)
-    for pts in _POINTS:
-        sub = {s_: pts[i % len(pts)] + (i // len(pts)) for i, s_ in enumerate(syms)}
+    trials = [(pts, 1) for pts in _POINTS] + [(_POINTS[0], -1), (_POINTS[1], -1)]
+    for pts, sgn in trials:
+        sub = {s_: (pts[i % len(pts)] + (i // len(pts))) * (1 if (sgn == 1 or s_.is_positive) else (-1 if i % 2 == 0 else 1))
+               for i, s_ in enumerate(syms)}
         try:
             val = d.subs(sub)
             for i, fn in enumerate(funcs):
